@@ -315,6 +315,7 @@ fn wait_fin(m: &Marks, max_ms: u64) {
 fn do_joins(h: Box<dyn H>, spec: &Value, m: &Marks) -> Value {
     let mut joins = Vec::new();
     let mut h = Some(h);
+    let mut handed = false;
     for j in spec["joins"].as_array().expect("joins") {
         let before = m.fin.load(Ordering::Acquire);
         if before != 0 {
@@ -322,6 +323,12 @@ fn do_joins(h: Box<dyn H>, spec: &Value, m: &Marks) -> Value {
             pause_ms(80);
         }
         let t_call = now_ns();
+        let unlimited = j["api"] == "join" || j["dur"] == "max" || j["dur"] == "u64max";
+        if handed && unlimited {
+            // the outcome has been handed out: an unlimited wait would (rightly) never return
+            joins.push(json!({"r": "skipped"}));
+            continue;
+        }
         let r = match j["api"].as_str().expect("api") {
             "tj" => h.as_ref().map_or(json!("moved"), |h| h.tj(dur_of(j["dur"].as_str().expect("dur")))),
             "join" => h.take().map_or(json!("moved"), H::join),
@@ -333,7 +340,7 @@ fn do_joins(h: Box<dyn H>, spec: &Value, m: &Marks) -> Value {
         let mut first = Value::Null;
         let mut r = r;
         let mut tries = 0;
-        while before != 0 && j["api"] == "tj" && r == json!({"err": "timeout join failed"}) && tries < 4 {
+        while before != 0 && !handed && j["api"] == "tj" && r == json!({"err": "timeout join failed"}) && tries < 4 {
             // produced its outcome and still a timeout: again, half a second later (up to 2 s), to
             // tell a result that was published late (unwinding, a descheduled loop thread on a loaded
             // machine) from one that is never handed out
@@ -343,6 +350,9 @@ fn do_joins(h: Box<dyn H>, spec: &Value, m: &Marks) -> Value {
             }
             tries += 1;
             r = h.as_ref().map_or(json!("moved"), |h| h.tj(dur_of(j["dur"].as_str().expect("dur"))));
+        }
+        if r.get("val").is_some() || r.get("err").map_or(false, |e| e != "timeout join failed" && e != "join failed") {
+            handed = true;
         }
         joins.push(json!({"r": r, "t_call": t_call.to_string(), "t_ret": t_ret.to_string(), "first": first,
                           "fin_before": before.to_string(), "fin_after": after.to_string()}));
